@@ -286,3 +286,27 @@ Theorem C01_safelink_per_session_history : forall N p0 negs evs more how negs' e
   /\ (h_safe h = false -> host_frame h = h_out h).
 Proof. exact safelink_per_session_history. Qed.
 Print Assumptions C01_safelink_per_session_history.
+
+(* ===================== round 5: one layer down, the dongle shared by several links ===================== *)
+
+(* _SharedRadio.run over Crazyradio: whatever commands came before — sends of other instances with other
+   settings, channel scans, selected scans, ARC changes, instances closing, the dongle being re-opened — every
+   SEND_PACKET goes on the air with the hardware tuned to exactly the (channel, datarate, address) of the
+   instance that asked.  (coherent: Crazyradio's current_* memory agrees with the hardware; true initially and
+   kept, since every change goes through its setters.) *)
+Theorem C01_shared_dongle_always_tuned : forall cs d,
+  coherent d -> sends_tuned (fst (rexec cs d)).
+Proof. exact shared_dongle_always_tuned. Qed.
+Print Assumptions C01_shared_dongle_always_tuned.
+
+Theorem C01_dongle0_coherent : coherent dongle0.
+Proof. exact dongle0_coherent. Qed.
+Print Assumptions C01_dongle0_coherent.
+
+(* Remembering "(instance, setting) last set up" ABOVE Crazyradio and skipping the re-tuning for an equal
+   tuple is wrong as long as the scan branches do not clear that memory: send, scan, send -> the second send
+   leaves on the scan's last channel / address / datarate. *)
+Theorem C01_cached_tuning_refuted :
+  exists cs, ~ sends_tuned (rexec_cached cs (dongle0, None)).
+Proof. exact cached_tuning_refuted. Qed.
+Print Assumptions C01_cached_tuning_refuted.
